@@ -25,8 +25,10 @@ var jsonTexts = []string{
 	"2147483647", "2147483648", "-2147483648", "-2147483649", "4294967295", "4294967296",
 	"9007199254740992", "9223372036854775807", "9223372036854775808", "-9223372036854775809",
 	"18446744073709551615", "18446744073709551616", "1e19", "1e300", "-1e300", "5e-324", "-0.0", "1e-5",
+	// the largest finite magnitudes (anything that re-parses or rounds a float may turn them into an infinity), float32's, the smallest normal
+	"1.7976931348623157e308", "-1.7976931348623157e308", "1.7976931348623155e308", "3.4028234663852886e38", "3.4028235677973366e38", "2.2250738585072014e-308", "0.1", "0.30000000000000004",
 	// strings
-	`""`, `"abc"`, `"12"`, `"-3"`, `"1e5"`, `"12.7"`, `" 5"`, `"0x10"`, `"NaN"`, `"Inf"`, `"-Infinity"`, `"+Inf"`, `"infinity"`, `"1e400"`, `"-1e400"`,
+	`""`, `"abc"`, `"12"`, `"-3"`, `"1e5"`, `"12.7"`, `" 5"`, `"0x10"`, `"NaN"`, `"Inf"`, `"-Infinity"`, `"+Inf"`, `"infinity"`, `"1e400"`, `"-1e400"`, `"1.7976931348623157e308"`, `"-1.7976931348623157e308"`, `"1.7976931348623159e308"`,
 	`"true"`, `"false"`, `"1"`, `"AQID"`, `"18446744073709551616"`, `"-9223372036854775809"`, `"null"`,
 	// booleans and null
 	"true", "false", "null",
@@ -81,6 +83,9 @@ func hostileValues(r *vf.Run) []*hval {
 	native("level(-70000)", level(-70000))
 	native("ratio(0.25)", ratio(0.25))
 	native("flag(true)", flag(true))
+	native("float64(MaxFloat64)", float64(math.MaxFloat64))
+	native("float64(-MaxFloat64)", float64(-math.MaxFloat64))
+	native("float32(MaxFloat32)", float32(math.MaxFloat32))
 	native("float32(0.5)", float32(0.5))
 	native("float32(-3e38)", float32(-3e38))
 	native("float32(1e10)", float32(1e10))
